@@ -718,6 +718,11 @@ func (c *specCtx) call(x *SExpr) *SVal {
 			}
 		}
 		return &SVal{T: BoolLit(ok && m == "W"), Ty: boolT}
+	case "locked":
+		// locked(x): x's lock is held in either mode (read or write) at this point of the function under contract
+		key, _ := c.fr.lockKeyOf(c.st, x.Args[0], c.bind, c.pkgPath)
+		_, ok := c.st.locks[key]
+		return &SVal{T: BoolLit(ok), Ty: boolT}
 	case "len":
 		v := c.value(c.eval(x.Args[0]))
 		switch {
